@@ -836,6 +836,38 @@ func c04InCore(l []*c04Item, ctx int) bool {
 	return true
 }
 
+// c04ParenShadowFamily: `for(var b of c){let b;(b)}`, `try{}catch(b){var b;(b)}`, `var b;{let b;(b)}`,
+// `var b;function f(b){(b)}`, `var b;for(let b of c){(b)}`, `var b;try{}catch(b){(b)}` with the parenthesised lists
+// (b), (b,b), (a,b), (b,a), over three choices of names, bare, inside a function, and followed by a use of the name
+func c04ParenShadowFamily(emit func([]*c04Item)) {
+	leaf := func(kind, d, x int) *c04Item { return &c04Item{kind: kind, d: d, x: x, nm: -1} }
+	for _, nm := range [][3]int{{1, 2, 0}, {0, 1, 2}, {2, 0, 1}} {
+		x, y, a := nm[0], nm[1], nm[2]
+		for _, ps := range [][]int{{x}, {x, x}, {a, x}, {x, a}} {
+			paren := func() *c04Item {
+				it := &c04Item{kind: c04KParen, nm: -1}
+				for _, p := range ps {
+					it.a = append(it.a, leaf(c04KPRef, 0, p))
+				}
+				return it
+			}
+			progs := [][]*c04Item{
+				{&c04Item{kind: c04KFor, nm: -1, a: []*c04Item{leaf(c04KDecl, c04DVar, x), leaf(c04KRef, 0, y)}, b: []*c04Item{leaf(c04KDecl, c04DLex, x), paren()}}},
+				{&c04Item{kind: c04KBlock, nm: -1}, &c04Item{kind: c04KCatch, nm: -1, a: []*c04Item{leaf(c04KDecl, c04DCatch, x)}, b: []*c04Item{leaf(c04KDecl, c04DVar, x), paren()}}},
+				{leaf(c04KDecl, c04DVar, x), &c04Item{kind: c04KBlock, nm: -1, b: []*c04Item{leaf(c04KDecl, c04DLex, x), paren()}}},
+				{leaf(c04KDecl, c04DVar, x), &c04Item{kind: c04KFunc, nm: -1, a: []*c04Item{leaf(c04KDecl, c04DParam, x)}, b: []*c04Item{paren()}}},
+				{leaf(c04KDecl, c04DVar, x), &c04Item{kind: c04KFor, nm: -1, a: []*c04Item{leaf(c04KDecl, c04DLex, x), leaf(c04KRef, 0, y)}, b: []*c04Item{paren()}}},
+				{leaf(c04KDecl, c04DVar, x), &c04Item{kind: c04KBlock, nm: -1}, &c04Item{kind: c04KCatch, nm: -1, a: []*c04Item{leaf(c04KDecl, c04DCatch, x)}, b: []*c04Item{paren()}}},
+			}
+			for _, l := range progs {
+				emit(l)
+				emit(append(append([]*c04Item{}, l...), leaf(c04KRef, 0, x)))
+				emit([]*c04Item{{kind: c04KFunc, nm: -1, b: l}, leaf(c04KRef, 0, x)})
+			}
+		}
+	}
+}
+
 // c04Unmodelled: constructs the label machine of the proof has no step for: class-expression names (the merge of the
 // pending uses into the name), x => ... and the parenthesised arrow cover (UndeclareScope)
 func c04Unmodelled(l []*c04Item) bool {
@@ -1017,6 +1049,9 @@ func c04Oracle(r *Rng, tier string, rep *Report) {
 	if tier == "thorough" {
 		n = 300000
 	}
+	// strictKey != "": the program belongs to a family on which /repo follows ECMAScript although a syntactic feature
+	// of a known deviation is present; every mismatch is reported under strictKey
+	strictKey := ""
 	check := func(l []*c04Item, origin string) {
 		if !c04Renderable(l, 0) {
 			return
@@ -1084,7 +1119,10 @@ func c04Oracle(r *Rng, tier string, rep *Report) {
 				}
 			}
 		}
-		if mismatch != "" {
+		if mismatch != "" && strictKey != "" {
+			rep.Violate(strictKey+":"+src, fmt.Sprintf("%q: %s", src, mismatch), replay)
+			bucket = "deviates/" + bucket
+		} else if mismatch != "" {
 			switch len(feats) {
 			case 0:
 				rep.Violate("c04-es:unclassified:"+src, fmt.Sprintf("%q: %s", src, mismatch), replay)
@@ -1200,6 +1238,12 @@ func c04Oracle(r *Rng, tier string, rep *Report) {
 		}
 		rep.Eval(w.src, true, "hand-written")
 	}
+	// parenthesised identifiers and comma lists that turn out not to be arrow heads (UndeclareScope) in a scope that
+	// declares the name itself while an enclosing scope has a var of the same name: the uses follow the declaration, so
+	// /repo resolves them as ECMAScript does even where the shape of a known deviation is present
+	strictKey = "c04-es:paren-cover-shadowed-var"
+	c04ParenShadowFamily(func(l []*c04Item) { check(l, "paren-shadow") })
+	strictKey = ""
 	c04EnumProgs(3, func(l []*c04Item) { check(l, "exhaustive") })
 	for i := 0; i < n; i++ {
 		check(c04GenProgram(r, 4+i%40, i%5 == 0), "random")
